@@ -22,9 +22,9 @@ type c01Inv struct {
 	Ctx     *string  `json:"ctx,omitempty"`
 	// Slow: this caller is on a slow link - it has the response headers but reads the (large) body only after the next
 	// invocation has been answered
-	Slow bool `json:"slow,omitempty"`
-	Trace   string   `json:"trace,omitempty"`
-	Kind    string   `json:"kind"` // ok | error | repoll | crash | stall | oversize
+	Slow  bool   `json:"slow,omitempty"`
+	Trace string `json:"trace,omitempty"`
+	Kind  string `json:"kind"` // ok | error | repoll | crash | stall | oversize
 	// Knock: while this invocation is with the runtime a second caller tries the invoke endpoint (and is refused); the
 	// invocation itself must go on untouched (kinds ok, error, repoll)
 	Knock bool `json:"knock,omitempty"`
